@@ -298,7 +298,7 @@ func main() {
 							continue
 						}
 						t := sites[target]
-						sniMatchesHost := strings.EqualFold(st.ServerName, hostHdr)
+						sniMatchesHost := strings.ToLower(st.ServerName) == strings.ToLower(hostHdr) // (byte-wise after ASCII lower-casing: Unicode case folding would equate U+017F with s)
 						if t.set.auth != "" && !sniMatchesHost {
 							if rec.Status != 403 || len(rec.Snap.Values("X-Site")) > 0 {
 								c := mk(fmt.Sprintf("status %d X-Site %v", rec.Status, rec.Snap.Values("X-Site")), "403 and no site content")
@@ -321,7 +321,7 @@ func main() {
 		}
 		// requests over connections whose (completed) handshake carried each possible server name, including none:
 		// a client-certificate site must refuse every request whose Host differs from that name
-		for _, connName := range append([]string{"", "unknown.example", "x.w.a.test", "x.w.test"}, hostMenu[:4]...) {
+		for _, connName := range append([]string{"", "unknown.example", "x.w.a.test", "x.w.test", "a.te\u017ft", "b.a.te\u017ft"}, hostMenu[:4]...) /* (the last two: names that equal a site's name only under Unicode case folding, U+017F for s) */ {
 			connName = strings.Replace(connName, "*", "w", 1)
 			// (Host values: every site's own name, and names two labels below the wildcard sites, which a wildcard does not cover)
 			for _, hs := range append(append([]site{}, sites...), site{host: "x.*.a.test"}, site{host: "x.*.test"}) {
@@ -347,7 +347,7 @@ func main() {
 					continue
 				}
 				t := sites[target]
-				if t.set.auth != "" && !strings.EqualFold(connName, hostHdr) {
+				if t.set.auth != "" && strings.ToLower(connName) != strings.ToLower(hostHdr) {
 					if rec.Status != 403 || len(rec.Snap.Values("X-Site")) > 0 {
 						kind := "C06/client-auth-site-served-over-handshake-for-another-name"
 						if connName == "" {
